@@ -120,7 +120,9 @@ def vary_code(rng, code):
     if rng.random() < 0.5:
         s = s.replace(">=", "=>")
     if rng.random() < 0.3:
-        s = re.sub(r"(<=|>=|<>|=<|=>)", lambda m: m.group(1)[0] + rng.choice([" ", "  "]) + m.group(1)[1], s)
+        s = s.replace("<>", "><")      # accepted with a blank inside, so also without one (fixed: 638b3f3)
+    if rng.random() < 0.3:
+        s = re.sub(r"(<=|>=|<>|=<|=>|><)", lambda m: m.group(1)[0] + rng.choice([" ", "  "]) + m.group(1)[1], s)
     if rng.random() < 0.4:
         s = re.sub(r"\b(GOTO|THEN|GOSUB|TO|SUB|ELSE|RESTORE|RUN) (\d)", lambda m: m.group(1) + m.group(2) if rng.random() < 0.6 else m.group(0), s)
     if rng.random() < 0.5:
